@@ -34,12 +34,12 @@ mv /tmp/confirm-$id-demo.go "$demo"
 [ -d .SEED ] && mv .SEED SEED
 echo "== demo WITH the change (must fail)" | tee -a "$log"
 [ -d SEED ] && mv SEED .SEED
-goenv go test -vet=off -count=1 -run 'TestSeedDemo' ./$demodir/ >/tmp/confirm-$id-with.log 2>&1
+goenv go test -vet=off -count=1 -run 'TestSeed' ./$demodir/ >/tmp/confirm-$id-with.log 2>&1
 with_rc=$?
 tail -3 /tmp/confirm-$id-with.log | tee -a "$log"
 echo "== demo WITHOUT the change (must pass)" | tee -a "$log"
 git apply -R /tmp/confirm-$id.diff
-goenv go test -vet=off -count=1 -run 'TestSeedDemo' ./$demodir/ >/tmp/confirm-$id-without.log 2>&1
+goenv go test -vet=off -count=1 -run 'TestSeed' ./$demodir/ >/tmp/confirm-$id-without.log 2>&1
 without_rc=$?
 tail -3 /tmp/confirm-$id-without.log | tee -a "$log"
 git apply /tmp/confirm-$id.diff
